@@ -68,6 +68,8 @@ class SimFS:
     def _log(self, actor, op, relpath, digest=None, extra=None):
         self.nops += 1
         self.world.log_event("fs", actor, op, relpath, digest, extra)
+        for listener in self.world.fs_listeners:
+            listener(actor, op, relpath, digest)
         self.world.on_fsop(self.nops, actor, op, relpath)
 
     def _emit(self, dir_ap, name, mask, cookie=0):
